@@ -650,3 +650,30 @@ func (b *refList) EncodeSW(out *[]byte) error {
 
 // UseRefList keeps the methods reachable.
 func UseRefList(b *refList, out *[]byte) uint64 { _ = b.EncodeSW(out); return b.Size() }
+
+// T-MMCO: operation 3 reads one operand only.
+type egReader struct{ pos int }
+
+func (r *egReader) ReadExpGolomb() uint { r.pos++; return uint(r.pos) }
+
+func parseMarkingWrong(r *egReader) (a, b, c2 uint) {
+	for {
+		op := r.ReadExpGolomb()
+		switch op {
+		case 0:
+			return
+		case 1, 3:
+			a = r.ReadExpGolomb()
+		case 2:
+			b = r.ReadExpGolomb()
+		case 4, 6:
+			c2 = r.ReadExpGolomb()
+		}
+		if r.pos > 100 {
+			return
+		}
+	}
+}
+
+// UseParseMarking keeps the function reachable.
+func UseParseMarking(r *egReader) uint { a, b, c := parseMarkingWrong(r); return a + b + c }
